@@ -129,6 +129,20 @@ def extract():
         else:
             fail("c07.agg.addition_step_bits", f"NBitStep impl for {step} not found")
     expect("c07.agg.carry_growth", rel, t, r"if a\.len\(\) < usize::try_from\(OV::BITS\)\.unwrap\(\) \{.*?integer_add::<_, AdditionStep, B>\(.*?sum\.push\(carry\);\s*Ok\(sum\)\s*\} else \{\s*integer_sat_add::<C, AdditionStep, B>\(")
+    # the whole pair arm of the tree reduction, statement by statement (Model/Circuits.lean `aggPair`): operand
+    # order, the carry-keeping guard `a.len() < OV::BITS`, the UNCONDITIONAL `sum.push(carry)`, saturating add otherwise
+    m = re.search(r"Ok\(mut chunk_pair\) => \{(.*?)\n {28}\}\n {24}\}\n {20}\}", t, re.S)
+    want_arm = ("assert_eq!(chunk_pair.len(),2);letb=chunk_pair.pop().unwrap();leta=chunk_pair.pop().unwrap();"
+                "ifa.len()<usize::try_from(OV::BITS).unwrap(){let(mutsum,carry)=integer_add::<_,AdditionStep,B>("
+                "ctx.narrow(&AggregateValuesStep::Add),record_id,&a,&b,).await?;sum.push(carry);Ok(sum)}else{"
+                "integer_sat_add::<C,AdditionStep,B>(ctx.narrow(&AggregateValuesStep::SaturatingAdd),record_id,&a,&b,).await}")
+    if not m:
+        fail("c07.agg.pair_arm", f"the `Ok(mut chunk_pair)` arm of aggregate_values not found in {rel}")
+    else:
+        got = squash(re.sub(r"//[^\n]*", "", m.group(1)))
+        record("c07.agg.pair_arm", rel, t, m, got[:200])
+        if got != want_arm:
+            fail("c07.agg.pair_arm", f"pair arm of aggregate_values changed: now `{got[:400]}`; the Lean model aggPair mirrors `{want_arm}`")
     expect("c07.agg.passthrough", rel, t, r"Ok\(mut chunk_vec\) if chunk_vec\.len\(\) == 1 => \{\s*Ok\(chunk_vec\.pop\(\)\.unwrap\(\)\)")
     expect("c07.agg.final_resize", rel, t, r"result\.resize\(\s*usize::try_from\(OV::BITS\)\.unwrap\(\),\s*Replicated::<Boolean, B>::ZERO,\s*\);")
 
